@@ -552,6 +552,44 @@ def r05_8_param_accessors(ctx):
     ctx.require_min("R05.8", 45)
 
 
+def r05_9_if_chains(ctx):
+    from sa.lowerworld import World
+
+    ctx.rule("R05.9", "an If built with the Then / ElseIf / Else methods is typed like the same If written with positional arguments: asking for its type (which every consumer does) refuses a chain whose arms leave values of different types, and a chain whose arms leave a value but whose last ElseIf has no Else - otherwise the paths reach the join with different stack contents")
+    ifc = ctx.model.find_class("If", "pyteal.ast.if_")
+    ctx.analysed(ifc.fq + ".type_of", ifc.fq + ".ElseIf", ifc.fq + ".Else", ifc.fq + ".Then")
+    types = ["uint64", "bytes", "none"]
+    n = 0
+    for arms in [list(p) for k in (2, 3) for p in itertools.product(types, repeat=k)]:
+        for final_else in (True, False):
+            if not final_else and len(arms) < 2:
+                continue
+            W = World(ctx.model, real_exprs=True)
+            kids = [W.child(f"arm{i}", t) for i, t in enumerate(arms)]
+            conds = [W.child(f"c{i}", "uint64") for i in range(len(arms))]
+            try:
+                obj = W.construct("If", [conds[0]])
+                obj = obj.methods["Then"](kids[0])
+                last = len(arms) - 1 if final_else else len(arms)
+                for i in range(1, last):
+                    obj = obj.methods["ElseIf"](conds[i])
+                    obj = obj.methods["Then"](kids[i])
+                if final_else:
+                    obj = obj.methods["Else"](kids[-1])
+                t = obj.methods["type_of"]()
+                outcome = f"typed {t}"
+            except Raised as r:
+                outcome = "refused"
+            used = arms if final_else else arms[:-1]
+            if not final_else:
+                used = arms[:len(arms) - 0][: len(arms) - 1 + 0] if False else arms[:last]
+            consistent = len(set(used)) == 1 and (final_else or used[0] == "none")
+            n += 1
+            construct = f"If.Then({used[0]})" + "".join(f".ElseIf.Then({t_})" for t_ in (used[1:-1] if final_else else used[1:])) + (f".Else({used[-1]})" if final_else else "")
+            ctx.check((outcome == "refused") == (not consistent), "R05.9", construct, f"type_of() is {outcome}; the arms leave {used}{'' if final_else else ' and the chain has no final Else'}, so it must be {'accepted' if consistent else 'refused'}", ifc.where, fact={"outcome": outcome})
+    ctx.require_min("R05.9", 30)
+
+
 def run(ctx):  # noqa: F811
     r05_1_operand_typing(ctx)
     r05_1b_lowered_params(ctx)
@@ -559,6 +597,7 @@ def run(ctx):  # noqa: F811
     r05_3_literal_op_lists(ctx)
     r05_7_typed_variables(ctx)
     r05_8_param_accessors(ctx)
+    r05_9_if_chains(ctx)
     r05_4_construct_typing(ctx)
     r05_6_type_relation(ctx)
     from rules import c02 as _c02, c03 as _c03
